@@ -1,7 +1,8 @@
 #!/bin/bash
-# Re-confirms every seeded change against the current /repo HEAD (scratch worktrees, 4 at a time)
+# Re-confirms every seeded change against the current /repo HEAD (scratch worktrees, 5 at a time).
+# A seed is re-run with the check recorded at its confirmation (normally its own property's).
 cd "$(dirname "$0")"
-ls -d seeded/*/ | sed 's#/$##' | xargs -P 4 -I{} sh -c 'n=$(basename {}); python3 seedtest.py {} --keep $n > /tmp/reseed_$n.json 2>&1'
+ls -d seeded/*/ | sed 's#/$##' | xargs -P 5 -I{} sh -c 'n=$(basename {}); c=$(jq -r ".confirmed_by_framework_author.check_run // \"\"" {}/meta.json | sed -n "s#^./check.sh \(C[0-9]*\) .*#\1#p"); if [ -n "$c" ]; then python3 seedtest.py {} --check $c --keep $n > /tmp/reseed_$n.json 2>&1; else python3 seedtest.py {} --keep $n > /tmp/reseed_$n.json 2>&1; fi'
 python3 - <<'PY'
 import json,glob
 bad=0
